@@ -6,8 +6,8 @@ from lib.mirfwd import (bool_switches, callee_of, cycle_members, blocks_between,
 
 TECHNIQUE = ("MIR CFG path rules (dominance, must-pass-through pairing, edge dominance) + operand provenance + who-may-call on the include expander; "
              "roles by type / callee / recursion cycle, calls followed through private helpers and closures with parameters bound to arguments (lib/mirfwd.py); "
-             "finite tables: the fence scanners and the include expander interpreted from their expanded syntax over generated lines / include graphs in a virtual file system "
-             "and compared with an oracle of the property (lib/rsinterp.py, rules/c20_tables.py)")
+             "finite table: the two fence scanners (closed line predicates) evaluated from their expanded syntax over a generated table of lines "
+             "against the fence definition (lib/rsinterp.py, rules/c20_tables.py)")
 EXPLANATION = (
     "Decides the structural clauses of C20 on the MIR of the include expander in crate `mech`: the cycle test "
     "dominates the active-set insertion and every recursive call and its true-branch returns Err; every path from the "
@@ -28,10 +28,6 @@ EXPLANATION = (
     'run) on a generated table of ~1160 lines (indentation 0-5 or tab x marker x run 1-6 x what follows the run; close test x opening marker x opening length) and must agree with the fence '
     'definition (at most three spaces, at least three identical ` or ~; closes iff same marker, run at least as long, only blanks behind the run): what is decided is the decision of each scanner '
     'on every table row - an offset, bound or character set that is wrong at some indentation / length shows as a wrong row - not the behaviour on lines outside the table.'
-    ' (R11) the whole expander (guarded function with a fresh active set, and the outside entry) is interpreted the same way over 68 small include graphs in a virtual file system and compared '
-    'with an independent reference of the property (textual substitution, newline of the include line kept, resolution against the including file, stand-alone test, fences at every indentation, '
-    'cycle = circular-include error, missing = include error naming the target, active set empty after success, no panic / divergence): one obligation per clause; decided is the outcome on the '
-    'table rows (ASCII and a few UTF-8 names, LF line ends), not on arbitrary inputs; a construct the interpreter does not model leaves the table undecided (note), never silently skipped.'
 )
 
 HS = r"std::collections::hash::set::HashSet::<T, S, A>::"
